@@ -49,6 +49,25 @@ class Frames:
             # checked on it, not part of the discovery)
             if r1 == [] and r2 == [] and lp.run(o) != []:
                 self.comment.append(h)
+        # block comments: a comment head plus one character after which the
+        # end of the line no longer ends the comment, and some closer of one
+        # or two characters does
+        self.block_comment = []  # (opener, closer)
+        tail = "|" + o
+        for h in self.comment:
+            for c in lp.reps:
+                if c == "\n" or lp.run(h + c + o + "\n" + tail) == lp.run(tail):
+                    continue
+                op = h + c
+                found = None
+                for cl in list(lp.reps) + [a + b for a in lp.reps
+                                           for b in lp.reps]:
+                    if lp.run(op + o + cl + tail) == lp.run(tail) and \
+                            lp.run(op + o + "\n" + o + cl + tail) == \
+                            lp.run(tail):
+                        found = cl
+                        break
+                self.block_comment.append((op, found))
         # literal forms with an opener (one character, or a digraph head and
         # one character) and a *different* closer: opener + payload runs to
         # the end of the program as one token, some closer ends it
@@ -165,9 +184,16 @@ def law_closer_optional(chk, lp, fr: Frames, rule, file):
     return n
 
 
-def law_payload_opaque(chk, lp, fr: Frames, rule, file):
+def law_payload_opaque(chk, lp, fr: Frames, rule, file, tag=""):
     """Replacing a literal's payload by another payload never changes the
     sequence of token kinds around it."""
+    if tag:
+        real = chk
+
+        class _Tagged:
+            def ob(self, r, construct, *a, **k):
+                return real.ob(r, construct + tag, *a, **k)
+        chk = _Tagged()
     o = lp.other
     tail = "|" + o
     tail_kinds = lp.kinds_of(tail)
@@ -250,10 +276,33 @@ def law_payload_opaque(chk, lp, fr: Frames, rule, file):
                f"{lp.run(p + (bad or '') + tail)}: a payload character of the "
                "two-character string acts as syntax", file,
                witness=repr(p + (bad or "") + tail), sample={"literal": kind})
+    blocks = {op: cl for op, cl in fr.block_comment}
+    for op, cl in fr.block_comment:
+        # a block comment ends at its first closer whatever its text is
+        bad = None
+        if cl is None:
+            bad = ""
+        else:
+            pays = [""] + list(lp.reps) + [a + b for a in lp.reps
+                                            for b in lp.reps]
+            for p in pays:
+                if cl in p + cl[:-1] or (p + cl).index(cl) != len(p):
+                    continue
+                n += 1
+                if lp.run(op + p + cl + tail) != lp.run(tail):
+                    bad = p
+                    break
+        chk.ob(rule, f"block comment {op!r}…{cl!r}", bad is None,
+               f"the block comment {op + (bad or '') + (cl or '')!r} does "
+               "not end at its closer" if cl is not None else
+               f"after {op!r} the end of the line no longer ends the comment "
+               "and no closer of one or two characters does", file,
+               witness=repr(op + (bad or "") + (cl or "") + tail),
+               sample="block comment")
     for h in fr.comment:
         bad = None
         for c in lp.reps:
-            if c == "\n":
+            if c == "\n" or h + c in blocks:
                 continue
             n += 1
             if lp.run(h + c + "\n" + tail) != lp.run(tail):
